@@ -818,6 +818,8 @@ def nonlinear_roots(f, x0, jac=None, tol=None, verbose=False, maxiter=200, use_s
         x = D.ar_numpy.reshape(res.x, (xdim, 1))
         F = D.ar_numpy.reshape(res.fun, fshape)
         success = res.success or ("no futher improvement" in res.message and D.ar_numpy.linalg.norm(res.fun) <= D.tol_epsilon(x0.dtype))
+        # MINPACK reports "converged" without moving when the residual at the starting point is not finite
+        success = bool(success) and bool(D.ar_numpy.all(D.ar_numpy.isfinite(res.fun)))
         if success:
             x = D.ar_numpy.reshape(x, xshape)
             if var_bounds is not None:
